@@ -13,6 +13,7 @@ import (
 
 	"verif/internal/core"
 	"verif/internal/flow"
+	"verif/internal/load"
 )
 
 // Helpers private to C02.
@@ -99,6 +100,10 @@ type c02Defs struct {
 	siteFn  map[*flow.Func]*flow.Func    // the covered function containing that call site
 	byObj   map[types.Object]*flow.Func  // function object → covered function
 	parents map[*flow.Func]map[ast.Node]ast.Node
+	// callback iterators: a function literal handed to a covered helper that calls that parameter at
+	// exactly one place is executed there (`walkBackward(flow, func(node *FlowNode) {..})` with
+	// `fn(&flow[i])` inside the helper's loop): the literal's parameters name that call's operands
+	litSite map[*ast.FuncLit]*ast.CallExpr
 }
 
 func c02NewDefs(f *flow.Func) *c02Defs { return c02ReachDefs(f, 0) }
@@ -149,7 +154,145 @@ func c02ReachDefs(f *flow.Func, depth int) *c02Defs {
 	for _, g := range d.funcs {
 		d.addFunc(g)
 	}
+	d.bindLits()
 	return d
+}
+
+// bindLits binds the parameters of function literals passed to covered single-site helpers.
+func (d *c02Defs) bindLits() {
+	d.litSite = map[*ast.FuncLit]*ast.CallExpr{}
+	f := d.f
+	for h, call := range d.site {
+		sig, _ := c02FuncObj(h).Type().(*types.Signature)
+		if sig == nil || sig.Variadic() || h.Type.Params == nil {
+			continue
+		}
+		// parameter identifiers of h in order
+		var params []*ast.Ident
+		for _, fld := range h.Type.Params.List {
+			if len(fld.Names) == 0 {
+				params = append(params, nil)
+			}
+			params = append(params, fld.Names...)
+		}
+		for k, arg := range call.Args {
+			lit, ok := ast.Unparen(arg).(*ast.FuncLit)
+			if !ok || k >= len(params) || params[k] == nil {
+				continue
+			}
+			po := f.Info.Defs[params[k]]
+			if po == nil || d.n[po] != 1 {
+				continue
+			}
+			var inv []*ast.CallExpr
+			other := false
+			ast.Inspect(h.Body, func(n ast.Node) bool {
+				switch x := n.(type) {
+				case *ast.CallExpr:
+					if id, ok := ast.Unparen(x.Fun).(*ast.Ident); ok && f.Info.Uses[id] == po {
+						inv = append(inv, x)
+					}
+				case *ast.Ident:
+					if f.Info.Uses[x] == po {
+						other = true
+					}
+				}
+				return true
+			})
+			// every use of the parameter is the callee of one call
+			uses := 0
+			ast.Inspect(h.Body, func(n ast.Node) bool {
+				if id, ok := n.(*ast.Ident); ok && f.Info.Uses[id] == po {
+					uses++
+				}
+				return true
+			})
+			_ = other
+			if len(inv) != 1 || uses != 1 {
+				continue
+			}
+			d.litSite[lit] = inv[0]
+			i := 0
+			if lit.Type.Params != nil {
+				for _, fld := range lit.Type.Params.List {
+					for _, id := range fld.Names {
+						if o := f.Info.Defs[id]; o != nil && i < len(inv[0].Args) {
+							d.n[o]++
+							d.rhs[o] = inv[0].Args[i]
+						}
+						i++
+					}
+				}
+			}
+		}
+	}
+}
+
+// up returns the node that stands for n one level further out: the call that invokes the bound
+// function literal n sits in, or the single call site of the helper n belongs to (nil at the top).
+func (d *c02Defs) up(n ast.Node) ast.Node {
+	g := d.owner(n)
+	if g == nil {
+		return nil
+	}
+	var best *ast.FuncLit
+	for lit := range d.litSite {
+		if contains(lit, n) && ast.Node(lit) != n && (best == nil || contains(best, lit)) {
+			best = lit
+		}
+	}
+	if best != nil {
+		return d.litSite[best]
+	}
+	if g == d.f {
+		return nil
+	}
+	if call := d.site[g]; call != nil {
+		return call
+	}
+	return nil
+}
+
+// loopsOut lists, innermost first, the loops enclosing n along the chain of bound literals and
+// single-site helpers, together with the function each loop belongs to; ok=false if the chain breaks
+// before reaching d.f.
+func (d *c02Defs) loopsOut(n ast.Node) (loops []ast.Stmt, fns []*flow.Func, ok bool) {
+	for i := 0; i < 10 && n != nil; i++ {
+		g := d.owner(n)
+		if g == nil {
+			return nil, nil, false
+		}
+		// the region of g that n executes in: the innermost bound literal, or the whole body
+		var region ast.Node = g.Body
+		for lit := range d.litSite {
+			if contains(lit, n) && ast.Node(lit) != n && contains(region, lit) {
+				region = lit.Body
+			}
+		}
+		ls := enclosingLoops(region, n)
+		for j := len(ls) - 1; j >= 0; j-- {
+			loops = append(loops, ls[j])
+			fns = append(fns, g)
+		}
+		next := d.up(n)
+		if next == nil {
+			return loops, fns, g == d.f
+		}
+		n = next
+	}
+	return nil, nil, false
+}
+
+// within reports whether n executes inside region (a node of some covered function), following
+// bound literals and single call sites outward.
+func (d *c02Defs) within(region, n ast.Node) bool {
+	for i := 0; i < 10 && n != nil; i++ {
+		if contains(region, n) {
+			return true
+		}
+		n = d.up(n)
+	}
+	return false
 }
 
 func (d *c02Defs) addFunc(g *flow.Func) {
@@ -841,4 +984,120 @@ func (lp *c02Loop) elem(d *c02Defs, e ast.Expr) bool {
 		return d.rootObj(ix.Index) == lp.key && d.norm(ix.X) == d.norm(lp.X)
 	}
 	return false
+}
+
+// c02ActiveNsField resolves, by role, the field of context.Context that holds the active namespace:
+// the string field of Context (the only one today); with several string fields, the one
+// Context.UseNamespace (or a helper it calls) assigns. nil + checker error if it cannot be told.
+func c02ActiveNsField(c *core.Ctx) *types.Var {
+	n := namedType(c, "pkg/context", "Context")
+	if n == nil {
+		return nil
+	}
+	st, ok := n.Underlying().(*types.Struct)
+	if !ok {
+		c.Errorf("anchor: pkg/context.Context is not a struct")
+		return nil
+	}
+	var strs []*types.Var
+	for i := 0; i < st.NumFields(); i++ {
+		if b, ok := st.Field(i).Type().Underlying().(*types.Basic); ok && b.Kind() == types.String {
+			strs = append(strs, st.Field(i))
+		}
+	}
+	if len(strs) == 1 {
+		return strs[0]
+	}
+	if f := fnOpt(c, "pkg/context", "Context", "UseNamespace"); f != nil {
+		var hit []*types.Var
+		for _, g := range reach(f, 2) {
+			ast.Inspect(g.Body, func(x ast.Node) bool {
+				if as, ok := x.(*ast.AssignStmt); ok {
+					for _, l := range as.Lhs {
+						if sel, ok := ast.Unparen(l).(*ast.SelectorExpr); ok {
+							if sl := g.Info.Selections[sel]; sl != nil {
+								for _, v := range strs {
+									if sl.Obj() == types.Object(v) {
+										hit = append(hit, v)
+									}
+								}
+							}
+						}
+					}
+				}
+				return true
+			})
+		}
+		if len(hit) > 0 {
+			same := true
+			for _, v := range hit {
+				if v != hit[0] {
+					same = false
+				}
+			}
+			if same {
+				return hit[0]
+			}
+		}
+	}
+	c.Errorf("anchor: cannot identify the field of pkg/context.Context that holds the active namespace (%d string fields)", len(strs))
+	return nil
+}
+
+// c02Flag is the END flag of the flow loop as a fact: a bool variable (key v:x), or a variable of an
+// enum-like integer type compared with the constant that means "ended" (key eq:x==K; equal to another
+// constant means false).
+type c02Flag struct {
+	key    string
+	prefix string // "eq:<x>==" for enums, "" for bools
+}
+
+func c02FlagOf(f *flow.Func, e ast.Expr, endedExact string) c02Flag {
+	if endedExact == "" {
+		return c02Flag{key: f.VarKey(e)}
+	}
+	pre := "eq:" + f.Render(e) + "=="
+	return c02Flag{key: pre + endedExact, prefix: pre}
+}
+
+func (fl c02Flag) get(st *flow.State) flow.Val {
+	if fl.key == "" {
+		return flow.Unknown
+	}
+	if v := st.Get(fl.key); v != flow.Unknown || fl.prefix == "" {
+		return v
+	}
+	for _, fact := range st.Facts() {
+		if strings.HasPrefix(fact, fl.prefix) && strings.HasSuffix(fact, "=T") && !strings.HasPrefix(fact, fl.key+"=") {
+			return flow.False // equal to another constant of the enum
+		}
+	}
+	return flow.Unknown
+}
+
+func (fl c02Flag) is(st *flow.State, v flow.Val) bool { return fl.key != "" && fl.get(st) == v }
+
+// c02FlagResult finds the result of the flow loop that reports END: a bool, or a package-local
+// enum-like unsigned/signed integer type. enum=true for the latter.
+func c02FlagResult(sig *types.Signature) (idx int, enum bool) {
+	idx = -1
+	for i := 0; i < sig.Results().Len(); i++ {
+		t := sig.Results().At(i).Type()
+		b, ok := t.Underlying().(*types.Basic)
+		if !ok {
+			continue
+		}
+		if b.Kind() == types.Bool && idx < 0 {
+			return i, false
+		}
+	}
+	for i := 0; i < sig.Results().Len(); i++ {
+		t := sig.Results().At(i).Type()
+		n, isNamed := t.(*types.Named)
+		b, ok := t.Underlying().(*types.Basic)
+		if ok && isNamed && b.Info()&types.IsInteger != 0 && n.Obj().Pkg() != nil && strings.HasPrefix(n.Obj().Pkg().Path(), load.ModulePath) {
+			return i, true
+		}
+	}
+	return -1, false
 }
